@@ -115,7 +115,17 @@ def generate(unit, reg, canaries=True, assume_not=(), assume=None):
     st.ghost["__entry__"] = Conc(entry)
     is_gen = any(isinstance(n, (ast.Yield, ast.YieldFrom)) for n in walk_own(fdef))
     if is_gen or unit.yield_ensures:
+        yt = getattr(unit, "yield_type", None)
+        if yt is not None:
+            lt = V.List(yt)
+            st.ghost["yielded"] = Val(lt, lt.empty())
+
         def yhook(sx2, val, s, node, is_from):
+            if yt is not None and not is_from:
+                lt2 = V.List(yt)
+                cur = s.ghost["yielded"]
+                vv = sx2.coerce(val, yt, s)
+                s.ghost["yielded"] = Val(lt2, lt2.mk(z3.Store(lt2.arr(cur.term), lt2.n(cur.term), vv.term), lt2.n(cur.term) + 1))
             for (name, src) in unit.yield_ensures:
                 c = sx2.eval_spec(src, s, {"yielded": val})
                 sx2.oblige(s, "%s/yield:%s" % (sx2.cur_func, name), c, "yield", node)
@@ -317,6 +327,27 @@ def bounded_refute(ob, timeout_ms=5000, bounds=(1, 2, 3)):
 
 
 _incl_cache = {}
+_qc = {}
+
+
+def _is_quantified(e):
+    k = e.get_id()
+    hit = _qc.get(k)
+    if hit is not None and hit[0].eq(e):
+        return hit[1]
+    r = False
+    stack, seen = [e], set()
+    while stack:
+        x = stack.pop()
+        if x.get_id() in seen:
+            continue
+        seen.add(x.get_id())
+        if z3.is_quantifier(x):
+            r = True
+            break
+        stack.extend(x.children())
+    _qc[k] = (e, r)
+    return r
 
 
 def language_inclusion(ob, timeout_ms=10000):
@@ -362,6 +393,13 @@ def discharge(ob, timeout_ms=10000, use_cvc5=True, both=False):
     except z3.Z3Exception:
         pass
     neg = z3.Not(ob.claim)
+    # first without the quantified hypotheses (fewer hypotheses: `unsat` is still a proof, and usually a much faster one)
+    ground = [h for h in ob.hyps if not _is_quantified(h)]
+    if len(ground) < len(ob.hyps):
+        r0, s0, dt0 = check_z3(ground, neg, max(1000, timeout_ms // 3))
+        if r0 == z3.unsat:
+            ob.status, ob.backend, ob.seconds = "discharged", "z3", dt0
+            return ob
     r, s, dt = check_z3(ob.hyps, neg, timeout_ms)
     ob.seconds = dt
     ob.backend = "z3"
